@@ -90,7 +90,12 @@ def r17_1(ctx):
             n += 1
             st = stmt_of(f, c)
             g = guards_of(f.node, st)
-            sn = [(t, pol) for t, pol in g if isinstance(t, ast.Call) and ctx.repo.resolve_call(f, t) is sniff and norm(t.args[0]) == path]
+            sn = []
+            for t, pol in g:
+                while isinstance(t, ast.UnaryOp) and isinstance(t.op, ast.Not):
+                    t, pol = t.operand, not pol
+                if isinstance(t, ast.Call) and ctx.repo.resolve_call(f, t) is sniff and norm(t.args[0]) == path:
+                    sn.append((t, pol))
             if not sn:
                 ctx.violated("R17.1", f.where(c), f"`{norm(c)}` opens the GAF without sniffing its compression: a compressed (or, for a compressed-only opener, a plain) input is misread", key_of(f, f"unsniffed-open:{norm(c)}"))
                 continue
@@ -210,12 +215,32 @@ def r17_2(ctx):
     ctx.require_count("R17.2", n_sites, 5, "gaftools/", "line reads from possibly-compressed GAF handles")
     # the parser itself: decode under gz_flag before splitting
     pf = repo.func("gaftools.gaf", "GAF.parse_gaf_line", "R17.2")
-    spl = [s for s in pf.node.body if isinstance(s, ast.If) and "gz_flag" in norm(s.test)]
-    ok = False
-    if spl:
-        t, pol = canon_test(spl[0].test, True)
-        gz_body, plain_body = (spl[0].body, spl[0].orelse) if pol else (spl[0].orelse, spl[0].body)
-        ok = any(".decode(" in norm(s) and ".split('\\t')" in norm(s) for s in gz_body) and any(".decode(" not in norm(s) and ".split('\\t')" in norm(s) for s in plain_body)
+    # path-based: on every path through the parser up to the tab split, the line is decoded exactly when gz_flag is set
+    pp = enum_paths(pf.node.body, rule="R17.2", where=pf.where(), max_paths=200000)
+    ok = True
+    seen_gz = set()
+    line_p = pf.params[1]
+    for p in pp:
+        gz = None
+        decoded = False
+        split_seen = False
+        for e in p.events:
+            if e.kind == "test":
+                t, tp = canon_test(e.node, e.pol)
+                if t.endswith("gz_flag") and gz is None:
+                    gz = tp
+            elif e.kind == "stmt":
+                src = norm(e.node)
+                if ".decode(" in src and not split_seen:
+                    decoded = True
+                if ".split('\\t')" in src and not split_seen:
+                    split_seen = True
+                    if gz is None or decoded != gz:
+                        ok = False
+                    seen_gz.add(gz)
+        if split_seen and len(seen_gz) == 2 and not ok:
+            break
+    ok = ok and seen_gz == {True, False}
     init = repo.func("gaftools.gaf", "GAF.__init__", "R17.2")
     flag_ok = False
     for s in c03.opener_shape(init):
